@@ -93,7 +93,16 @@ def run_shard(ctx):
     kinds = GS.all_kinds()
     i = 0
     # adjacency matrix over entity kinds (one representative statement kind each) in a seeded mode
-    reps = ["core_table", "seq", "type_enum", "domain", "schema", "db", "tspace", "set", "clone_db", "clone_schema", "alter_group", "table_comment", "hql", "drop"]
+    reps = ["core_table", "seq", "type_enum", "domain", "schema", "db", "tspace", "set", "set_empty", "clone_db", "clone_schema", "alter_group", "table_comment", "hql", "drop"]
+    # scripts that yield no entity at all: the grouped result must still be the dict with the mandatory buckets
+    EMPTY = ["", "\n", "USE warehouse;\n", "USE db;\nGO\nINSERT INTO t VALUES (1);\nGRANT ALL ON t TO joe;\n", "CREATE VIEW v AS SELECT 1;\n", "-- only a comment\n",
+             "/* block */\n", "SELECT 1;\nDELETE FROM t;\n", "DROP VIEW v;\n"]
+    for q, ddl in enumerate(EMPTY):
+        for mode in MODES:
+            i += 1
+            if ctx.mine(i):
+                check_case(ctx, {"gen": "empty", "ddl": ddl, "mode": mode, "entity_kinds": None})
+                ctx.obs["empty_result_scripts"] += 1
     for k1 in reps:
         for k2 in reps:
             i += 1
